@@ -23,5 +23,7 @@ def run(ck, progs):
         R.check_mirror(ck, P, "C05.3")
         R.check_account(ck, P, "C05.5", "C05.4")
         R.check_pipeline(ck, P, "C05.6")
+        from .. import rules_msg
+        rules_msg.check_rmw_tag_discipline(ck, P, "C05.6")
         R.check_checkpoint_position(ck, P, "C05.7")
         R.check_arena_order(ck, P, "C05.7")
